@@ -323,27 +323,35 @@ impl FieldParser {
         i: &[u8],
         template: T,
     ) -> IResult<&[u8], Vec<BTreeMap<usize, IPFixFieldPair>>> {
-        // If no fields there are no fields to parse, return an error.
-        let (remaining, mut fields, total_taken) =
-            template.get_fields().iter().enumerate().try_fold(
-                (i, vec![], 0usize),
-                |(remaining, mut fields, total_taken), (c, field)| {
-                    let mut data_field = BTreeMap::new();
-                    let (i, field_value) = field.parse_as_field_value(remaining)?;
-                    let taken = remaining.len().saturating_sub(i.len());
-                    data_field.insert(c, (field.field_type, field_value));
-                    fields.push(data_field);
-                    Ok((i, fields, total_taken.saturating_add(taken)))
-                },
-            )?;
+        let mut all_fields = vec![];
+        let mut input = i;
 
-        if remaining.len() >= total_taken {
-            let (remaining, more) = Self::parse(remaining, template)?;
-            fields.extend(more);
-            return Ok((remaining, fields));
+        // One iteration per record.  (This used to recurse once per record, which
+        // overflowed the stack on data sets holding a few thousand small records.)
+        loop {
+            // If no fields there are no fields to parse, return an error.
+            let (remaining, fields, total_taken) =
+                template.get_fields().iter().enumerate().try_fold(
+                    (input, vec![], 0usize),
+                    |(remaining, mut fields, total_taken), (c, field)| {
+                        let mut data_field = BTreeMap::new();
+                        let (i, field_value) = field.parse_as_field_value(remaining)?;
+                        let taken = remaining.len().saturating_sub(i.len());
+                        data_field.insert(c, (field.field_type, field_value));
+                        fields.push(data_field);
+                        Ok((i, fields, total_taken.saturating_add(taken)))
+                    },
+                )?;
+
+            all_fields.extend(fields);
+            input = remaining;
+
+            if total_taken == 0 || remaining.len() < total_taken {
+                break;
+            }
         }
 
-        Ok((remaining, fields))
+        Ok((input, all_fields))
     }
 }
 
